@@ -76,7 +76,7 @@ theorem rstrip0_append (l : Str) : ∃ k, l = rstrip0 l ++ List.replicate k '0' 
     have hz : l.reverse.takeWhile (· = '0') = List.replicate (l.reverse.takeWhile (· = '0')).length '0' := by
       apply all_zero_eq_replicate
       intro c hc
-      have := List.mem_takeWhile_imp hc
+      have := List.all_eq_true.1 (List.all_takeWhile (p := (· = '0')) (l := l.reverse)) c hc
       simpa using this
     have : l = (l.reverse.dropWhile (· = '0')).reverse ++ (l.reverse.takeWhile (· = '0')).reverse := by
       rw [← List.reverse_append, h, List.reverse_reverse]
@@ -176,19 +176,22 @@ theorem parseDurTime_timeN {h mi s us : Nat} (hus : us < 1000000) :
   simp only [parseDurTime, timeN, optComp_compN hH f1, optComp_compN hM f2, parseSecs_secsN hus, Option.map_some]
   by_cases a : h = 0 <;> by_cases b : mi = 0 <;> simp [a, b]
 
+/-- `"T" + time` if there is a time part -/
+def tailN (h mi s us : Nat) : Str := if (timeN h mi s us).isEmpty then [] else 'T' :: timeN h mi s us
+
 /-- text after `P` for absolute field values -/
 def bodyN (y mo d h mi s us : Nat) : Str :=
-  compN y 'Y' ++ (compN mo 'M' ++ (compN d 'D' ++ (if (timeN h mi s us).isEmpty then [] else 'T' :: timeN h mi s us)))
+  compN y 'Y' ++ (compN mo 'M' ++ (compN d 'D' ++ tailN h mi s us))
 
-theorem fnd_tail (h mi s us : Nat) :
-    fnd (if (timeN h mi s us).isEmpty then [] else 'T' :: timeN h mi s us) = none ∨
-    fnd (if (timeN h mi s us).isEmpty then [] else 'T' :: timeN h mi s us) = some 'T' := by
+theorem fnd_tail (h mi s us : Nat) : fnd (tailN h mi s us) = none ∨ fnd (tailN h mi s us) = some 'T' := by
+  unfold tailN
   split
   · left; rfl
   · right; exact fnd_cons (by decide)
 
 theorem parseDurTime_tail {h mi s us : Nat} (hus : us < 1000000) :
-    parseDurTime (if (timeN h mi s us).isEmpty then [] else 'T' :: timeN h mi s us) = some (h, mi, s, us) := by
+    parseDurTime (tailN h mi s us) = some (h, mi, s, us) := by
+  unfold tailN
   split
   · next he =>
     have := timeN_eq_nil.1 (List.isEmpty_iff.1 he)
@@ -202,17 +205,16 @@ theorem parseDurBody_bodyN {y mo d h mi s us : Nat} (hus : us < 1000000) :
   have hY : isDig 'Y' = false := by decide
   have hM : isDig 'M' = false := by decide
   have hD : isDig 'D' = false := by decide
-  have f3 : fnd (if (timeN h mi s us).isEmpty then [] else 'T' :: timeN h mi s us) ≠ some 'D' := by
-    rcases fnd_tail h mi s us with e | e <;> simp [e]
-  have f2 : fnd (compN d 'D' ++ (if (timeN h mi s us).isEmpty then [] else 'T' :: timeN h mi s us)) ≠ some 'M' := by
+  have f3 : fnd (tailN h mi s us) ≠ some 'D' := by
+    rcases fnd_tail h mi s us with e | e <;> rw [e] <;> simp
+  have f2 : fnd (compN d 'D' ++ tailN h mi s us) ≠ some 'M' := by
     rw [fnd_compN hD]; split
-    · rcases fnd_tail h mi s us with e | e <;> simp [e]
+    · rcases fnd_tail h mi s us with e | e <;> rw [e] <;> simp
     · simp
-  have f1 : fnd (compN mo 'M' ++ (compN d 'D' ++ (if (timeN h mi s us).isEmpty then [] else 'T' :: timeN h mi s us)))
-      ≠ some 'Y' := by
+  have f1 : fnd (compN mo 'M' ++ (compN d 'D' ++ tailN h mi s us)) ≠ some 'Y' := by
     rw [fnd_compN hM]; split
     · rw [fnd_compN hD]; split
-      · rcases fnd_tail h mi s us with e | e <;> simp [e]
+      · rcases fnd_tail h mi s us with e | e <;> rw [e] <;> simp
       · simp
     · simp
   simp only [parseDurBody, bodyN, optComp_compN hY f1, optComp_compN hM f2, optComp_compN hD f3,
@@ -258,5 +260,270 @@ theorem Dur.fix_normal (d : Dur) : d.fix.normal := by
   · exact carry_fst_bound (by decide) _ _
   · exact carry_fst_bound (by decide) _ _
   · exact carry_fst_bound (by decide) _ _
+
+
+/-! ### validity through the same decomposition -/
+
+theorem vComp_eq (x : Char) (s : Str) : vComp x s = ((optComp x s).1.isSome, (optComp x s).2) := by
+  unfold vComp optComp
+  cases hd : List.dropWhile isDig s with
+  | nil => cases List.takeWhile isDig s <;> simp
+  | cons c r =>
+    cases ht : List.takeWhile isDig s with
+    | nil => simp
+    | cons a as => by_cases hc : c = x <;> simp [hc]
+
+theorem vSecs_secsN {s us : Nat} : vSecs (secsN s us) = some (!(secsN s us).isEmpty) := by
+  unfold secsN
+  by_cases h : (s ≠ 0 || us ≠ 0) = true
+  · simp only [h, ↓reduceIte]
+    have hS : isDig 'S' = false := by decide
+    have hdot : isDig '.' = false := by decide
+    have hne : secRepr s us ++ ['S'] ≠ [] := by simp
+    unfold vSecs
+    split
+    · next heq => exact absurd heq hne
+    · unfold secRepr
+      by_cases h0 : us = 0
+      · subst h0
+        simp only [↓reduceIte, List.append_nil]
+        have hb : ∀ c, ['S'].head? = some c → isDig c = false := by intro c hc; simp at hc; subst hc; exact hS
+        rw [takeWhile_isDig_append (fun c hc => isDig_of_mem_toDigits hc) hb,
+          dropWhile_isDig_append (fun c hc => isDig_of_mem_toDigits hc) hb]
+        cases hd : Nat.toDigits 10 s with
+        | nil => exact absurd hd Nat.toDigits_ne_nil
+        | cons a as => simp
+      · simp only [h0, ↓reduceIte, List.append_assoc, List.cons_append]
+        have hb : ∀ c, ('.' :: (rstrip0 (padN 6 us) ++ ['S'])).head? = some c → isDig c = false := by
+          intro c hc; simp at hc; subst hc; exact hdot
+        have hb2 : ∀ c, ['S'].head? = some c → isDig c = false := by intro c hc; simp at hc; subst hc; exact hS
+        have hd := rstrip0_all_digits (l := padN 6 us) (fun c hc => isDig_of_mem_padN hc)
+        rw [takeWhile_isDig_append (fun c hc => isDig_of_mem_toDigits hc) hb,
+          dropWhile_isDig_append (fun c hc => isDig_of_mem_toDigits hc) hb]
+        cases hd1 : Nat.toDigits 10 s with
+        | nil => exact absurd hd1 Nat.toDigits_ne_nil
+        | cons a as =>
+          simp only [takeWhile_isDig_append hd hb2, dropWhile_isDig_append hd hb2]
+          cases hd2 : rstrip0 (padN 6 us) with
+          | nil => exact absurd hd2 (rstrip0_padN6_ne_nil h0)
+          | cons b bs => simp
+  · simp only [h, Bool.false_eq_true, ↓reduceIte]; rfl
+
+theorem validDur_bodyN {y mo d h mi s us : Nat} (hnz : ¬ (y = 0 ∧ mo = 0 ∧ d = 0 ∧ h = 0 ∧ mi = 0 ∧ s = 0 ∧ us = 0))
+    (sign : Str) (hs : sign = [] ∨ sign = ['-']) : validDur (sign ++ 'P' :: bodyN y mo d h mi s us) = true := by
+  have hY : isDig 'Y' = false := by decide
+  have hM : isDig 'M' = false := by decide
+  have hD : isDig 'D' = false := by decide
+  have hH : isDig 'H' = false := by decide
+  have f3 : fnd (tailN h mi s us) ≠ some 'D' := by
+    rcases fnd_tail h mi s us with e | e <;> rw [e] <;> simp
+  have f2 : fnd (compN d 'D' ++ tailN h mi s us) ≠ some 'M' := by
+    rw [fnd_compN hD]; split
+    · rcases fnd_tail h mi s us with e | e <;> rw [e] <;> simp
+    · simp
+  have f1 : fnd (compN mo 'M' ++ (compN d 'D' ++ tailN h mi s us)) ≠ some 'Y' := by
+    rw [fnd_compN hM]; split
+    · rw [fnd_compN hD]; split
+      · rcases fnd_tail h mi s us with e | e <;> rw [e] <;> simp
+      · simp
+    · simp
+  have g1 : fnd (compN mi 'M' ++ secsN s us) ≠ some 'H' := by
+    rw [fnd_compN hM]; split
+    · rcases fnd_secsN s us with e | e | e <;> simp [e]
+    · simp
+  have g2 : fnd (secsN s us) ≠ some 'M' := by
+    rcases fnd_secsN s us with e | e | e <;> simp [e]
+  have key : validDurBody ('P' :: bodyN y mo d h mi s us) = true := by
+    simp only [validDurBody, bodyN, vComp_eq, optComp_compN hY f1, optComp_compN hM f2, optComp_compN hD f3]
+    by_cases he : (timeN h mi s us).isEmpty = true
+    · simp only [tailN, he, ↓reduceIte]
+      have := timeN_eq_nil.1 (List.isEmpty_iff.1 he)
+      obtain ⟨rfl, rfl, rfl, rfl⟩ := this
+      by_cases a : y = 0 <;> by_cases b : mo = 0 <;> by_cases c : d = 0 <;> simp [a, b, c] at hnz ⊢
+    · simp only [tailN, he, Bool.false_eq_true, ↓reduceIte]
+      simp only [timeN, vComp_eq, optComp_compN hH g1, optComp_compN hM g2, vSecs_secsN]
+      have hne' : ¬ (h = 0 ∧ mi = 0 ∧ s = 0 ∧ us = 0) := by
+        intro hh; exact he (List.isEmpty_iff.2 (timeN_eq_nil.2 hh))
+      by_cases a : h = 0 <;> by_cases b : mi = 0 <;> simp [a, b, secsN_eq_nil] at hne' ⊢
+      exact hne'
+  rcases hs with rfl | rfl
+  · simpa [validDur] using key
+  · simpa [validDur] using key
+
+/-! ### no newline in the text -/
+
+theorem compN_ne_nl {n : Nat} {c : Char} (hc : c ≠ '\n') : ∀ x ∈ compN n c, x ≠ '\n' := by
+  intro x hx
+  unfold compN at hx
+  split at hx
+  · simp at hx
+  · rcases List.mem_append.1 hx with h | h
+    · exact ne_nl_of_isDig (isDig_of_mem_toDigits h)
+    · simp at h; subst h; exact hc
+
+theorem secsN_ne_nl (s us : Nat) : ∀ x ∈ secsN s us, x ≠ '\n' := by
+  intro x hx
+  unfold secsN secRepr at hx
+  split at hx
+  · simp only [List.append_assoc, List.mem_append, List.mem_cons, List.not_mem_nil, or_false] at hx
+    rcases hx with h | h | rfl
+    · exact ne_nl_of_isDig (isDig_of_mem_toDigits h)
+    · split at h
+      · simp at h
+      · rcases List.mem_cons.1 h with rfl | h
+        · decide
+        · exact ne_nl_of_isDig (rstrip0_all_digits (fun c hc => isDig_of_mem_padN hc) x h)
+    · decide
+  · simp at hx
+
+theorem bodyN_ne_nl (y mo d h mi s us : Nat) : ∀ x ∈ bodyN y mo d h mi s us, x ≠ '\n' := by
+  intro x hx
+  simp only [bodyN, tailN, List.mem_append] at hx
+  rcases hx with h1 | h1 | h1 | h1
+  · exact compN_ne_nl (by decide) x h1
+  · exact compN_ne_nl (by decide) x h1
+  · exact compN_ne_nl (by decide) x h1
+  · split at h1
+    · simp at h1
+    · rcases List.mem_cons.1 h1 with rfl | h2
+      · decide
+      · simp only [timeN, List.mem_append] at h2
+        rcases h2 with h3 | h3 | h3
+        · exact compN_ne_nl (by decide) x h3
+        · exact compN_ne_nl (by decide) x h3
+        · exact secsN_ne_nl s us x h3
+
+/-! ### the round trip -/
+
+def Dur.nonneg (d : Dur) : Prop :=
+  0 ≤ d.years ∧ 0 ≤ d.months ∧ 0 ≤ d.days ∧ 0 ≤ d.hours ∧ 0 ≤ d.minutes ∧ 0 ≤ d.seconds ∧ 0 ≤ d.micros
+def Dur.nonpos (d : Dur) : Prop :=
+  d.years ≤ 0 ∧ d.months ≤ 0 ∧ d.days ≤ 0 ∧ d.hours ≤ 0 ∧ d.minutes ≤ 0 ∧ d.seconds ≤ 0 ∧ d.micros ≤ 0
+def Dur.isZero (d : Dur) : Prop :=
+  d.years = 0 ∧ d.months = 0 ∧ d.days = 0 ∧ d.hours = 0 ∧ d.minutes = 0 ∧ d.seconds = 0 ∧ d.micros = 0
+
+/-- the text `_serialize_duration` writes after the sign, in terms of the absolute field values -/
+theorem reprDur_body (d : Dur) :
+    'P' :: (comp d.years 'Y' ++ (comp d.months 'M' ++ (comp d.days 'D' ++
+      (if (comp d.hours 'H' ++ (comp d.minutes 'M' ++
+            (if d.seconds ≠ 0 || d.micros ≠ 0 then secRepr d.seconds.natAbs d.micros.natAbs ++ ['S'] else []))).isEmpty
+       then []
+       else 'T' :: (comp d.hours 'H' ++ (comp d.minutes 'M' ++
+            (if d.seconds ≠ 0 || d.micros ≠ 0 then secRepr d.seconds.natAbs d.micros.natAbs ++ ['S'] else []))))))) =
+    'P' :: bodyN d.years.natAbs d.months.natAbs d.days.natAbs d.hours.natAbs d.minutes.natAbs d.seconds.natAbs
+      d.micros.natAbs := by
+  have hs : (if d.seconds ≠ 0 || d.micros ≠ 0 then secRepr d.seconds.natAbs d.micros.natAbs ++ ['S'] else []) =
+      secsN d.seconds.natAbs d.micros.natAbs := by
+    unfold secsN
+    by_cases a : d.seconds = 0 <;> by_cases b : d.micros = 0 <;> simp [a, b, Int.natAbs_eq_zero]
+  rw [hs]
+  simp only [comp_eq, bodyN, tailN, timeN]
+  rfl
+
+theorem any_neg_false_of_nonneg {d : Dur} (h : d.nonneg) : d.fields.any (· < 0) = false := by
+  obtain ⟨h1, h2, h3, h4, h5, h6, h7⟩ := h
+  simp [Dur.fields]; omega
+
+theorem any_pos_false_of_nonpos {d : Dur} (h : d.nonpos) : d.fields.any (· > 0) = false := by
+  obtain ⟨h1, h2, h3, h4, h5, h6, h7⟩ := h
+  simp [Dur.fields]; omega
+
+theorem any_pos_iff {d : Dur} (h : d.nonneg) : d.fields.any (· > 0) = false ↔ d.isZero := by
+  obtain ⟨h1, h2, h3, h4, h5, h6, h7⟩ := h
+  simp [Dur.fields, Dur.isZero]; omega
+
+theorem any_neg_iff {d : Dur} (h : d.nonpos) : d.fields.any (· < 0) = false ↔ d.isZero := by
+  obtain ⟨h1, h2, h3, h4, h5, h6, h7⟩ := h
+  simp [Dur.fields, Dur.isZero]; omega
+
+theorem parseDur_of_P {s x : Str} (h : dropNl s = 'P' :: x) : parseDur s = parseDurBody ('P' :: x) := by
+  unfold parseDur; rw [h]; simp
+
+theorem parseDur_of_minus {s x : Str} (h : dropNl s = '-' :: x) : parseDur s = (parseDurBody x).map Dur.neg := by
+  unfold parseDur; rw [h]; rfl
+
+theorem parseDur_P0D : parseDur ['P', '0', 'D'] = some ⟨0, 0, 0, 0, 0, 0, 0⟩ := by decide
+theorem validDur_P0D : validDur ['P', '0', 'D'] = true := by decide
+
+theorem dur_roundtrip (d : Dur) (hn : d.normal) (hs : d.nonneg ∨ d.nonpos) :
+    ∃ s, reprDur d = some s ∧ parseDur s = some d ∧ validDur s = true := by
+  have hfix := Dur.fix_of_normal hn
+  obtain ⟨n1, n2, n3, n4, n5⟩ := hn
+  have hus : d.micros.natAbs < 1000000 := by omega
+  by_cases hz : d.isZero
+  · -- the zero duration
+    refine ⟨['P', '0', 'D'], ?_, ?_, validDur_P0D⟩
+    · obtain ⟨z1, z2, z3, z4, z5, z6, z7⟩ := hz
+      simp [reprDur, hfix, Dur.fields, z1, z2, z3, z4, z5, z6, z7]
+    · rw [parseDur_P0D]
+      obtain ⟨y, mo, dd, h, mi, s, us⟩ := d
+      obtain ⟨z1, z2, z3, z4, z5, z6, z7⟩ := hz
+      simp only at z1 z2 z3 z4 z5 z6 z7
+      subst z1 z2 z3 z4 z5 z6 z7; rfl
+  · have hnz : ¬ (d.years.natAbs = 0 ∧ d.months.natAbs = 0 ∧ d.days.natAbs = 0 ∧ d.hours.natAbs = 0 ∧
+        d.minutes.natAbs = 0 ∧ d.seconds.natAbs = 0 ∧ d.micros.natAbs = 0) := by
+      intro h; apply hz; simp only [Int.natAbs_eq_zero] at h; exact h
+    rcases hs with hp | hm
+    · -- all fields ≥ 0, one positive
+      have e1 := any_neg_false_of_nonneg hp
+      have e2 : d.fields.any (· > 0) = true := by
+        cases h : d.fields.any (· > 0) with
+        | true => rfl
+        | false => exact absurd ((any_pos_iff hp).1 h) hz
+      refine ⟨'P' :: bodyN d.years.natAbs d.months.natAbs d.days.natAbs d.hours.natAbs d.minutes.natAbs
+        d.seconds.natAbs d.micros.natAbs, ?_, ?_, ?_⟩
+      · simp only [reprDur, hfix, e1, e2, Bool.false_and, Bool.false_eq_true, ↓reduceIte, Bool.not_false, Bool.not_true,
+          Bool.and_false, List.nil_append, reprDur_body]
+      · have hnl : dropNl ('P' :: bodyN d.years.natAbs d.months.natAbs d.days.natAbs d.hours.natAbs d.minutes.natAbs
+            d.seconds.natAbs d.micros.natAbs) = 'P' :: bodyN d.years.natAbs d.months.natAbs d.days.natAbs
+            d.hours.natAbs d.minutes.natAbs d.seconds.natAbs d.micros.natAbs := by
+          apply dropNl_eq_self
+          intro c hc
+          rcases List.mem_cons.1 hc with rfl | h
+          · decide
+          · exact bodyN_ne_nl _ _ _ _ _ _ _ c h
+        rw [parseDur_of_P hnl, parseDurBody_bodyN hus]
+        obtain ⟨p1, p2, p3, p4, p5, p6, p7⟩ := hp
+        have : (⟨Int.ofNat d.years.natAbs, Int.ofNat d.months.natAbs, Int.ofNat d.days.natAbs, Int.ofNat d.hours.natAbs,
+            Int.ofNat d.minutes.natAbs, Int.ofNat d.seconds.natAbs, Int.ofNat d.micros.natAbs⟩ : Dur) = d := by
+          obtain ⟨y, mo, dd, h, mi, s, us⟩ := d
+          simp only at p1 p2 p3 p4 p5 p6 p7
+          simp only [Int.ofNat_eq_coe, Dur.mk.injEq]
+          omega
+        rw [this, hfix]
+      · exact validDur_bodyN hnz [] (Or.inl rfl)
+    · -- all fields ≤ 0, one negative
+      have e1 := any_pos_false_of_nonpos hm
+      have e2 : d.fields.any (· < 0) = true := by
+        cases h : d.fields.any (· < 0) with
+        | true => rfl
+        | false => exact absurd ((any_neg_iff hm).1 h) hz
+      refine ⟨'-' :: 'P' :: bodyN d.years.natAbs d.months.natAbs d.days.natAbs d.hours.natAbs d.minutes.natAbs
+        d.seconds.natAbs d.micros.natAbs, ?_, ?_, ?_⟩
+      · simp only [reprDur, hfix, e1, e2, Bool.and_false, Bool.false_eq_true, ↓reduceIte, Bool.not_false, Bool.not_true,
+          Bool.false_and, List.cons_append, List.nil_append, reprDur_body]
+      · have hnl : dropNl ('-' :: 'P' :: bodyN d.years.natAbs d.months.natAbs d.days.natAbs d.hours.natAbs
+            d.minutes.natAbs d.seconds.natAbs d.micros.natAbs) = '-' :: 'P' :: bodyN d.years.natAbs d.months.natAbs
+            d.days.natAbs d.hours.natAbs d.minutes.natAbs d.seconds.natAbs d.micros.natAbs := by
+          apply dropNl_eq_self
+          intro c hc
+          rcases List.mem_cons.1 hc with rfl | h
+          · decide
+          · rcases List.mem_cons.1 h with rfl | h
+            · decide
+            · exact bodyN_ne_nl _ _ _ _ _ _ _ c h
+        rw [parseDur_of_minus hnl, parseDurBody_bodyN hus, Option.map_some]
+        obtain ⟨p1, p2, p3, p4, p5, p6, p7⟩ := hm
+        have hneg : (⟨Int.ofNat d.years.natAbs, Int.ofNat d.months.natAbs, Int.ofNat d.days.natAbs,
+            Int.ofNat d.hours.natAbs, Int.ofNat d.minutes.natAbs, Int.ofNat d.seconds.natAbs,
+            Int.ofNat d.micros.natAbs⟩ : Dur) = ⟨-d.years, -d.months, -d.days, -d.hours, -d.minutes, -d.seconds, -d.micros⟩ := by
+          simp only [Int.ofNat_eq_coe, Dur.mk.injEq]
+          omega
+        have hnorm' : (⟨-d.years, -d.months, -d.days, -d.hours, -d.minutes, -d.seconds, -d.micros⟩ : Dur).normal := by
+          refine ⟨?_, ?_, ?_, ?_, ?_⟩ <;> simp only [Int.natAbs_neg] <;> omega
+        rw [hneg, Dur.fix_of_normal hnorm']
+        simp only [Dur.neg, Int.neg_neg]
+        exact congrArg some hfix
+      · exact validDur_bodyN hnz ['-'] (Or.inr rfl)
 
 end Basyx.Lex
